@@ -109,6 +109,37 @@ def explore(ctx):
             nontrivial += 1
         if rep == 0:
             samples.append({'query': q, 'chunks': [(pc.decode('utf8', 'replace')[:60], d) for pc, d in chunks[:4]]})
+    # 1b. lines far larger than any internal buffer, anywhere in the input, followed by ordinary lines: every line
+    #     exactly once and in order (expected output computed here, not by a second run of the implementation)
+    SIZES = [0, 1, 100, 1023, 1024, 1025, 4095, 4096, 8191, 8192, 8193, 65535, 65536, 65537, 70000, 131072, 200000]
+    for rep in range(6 if quick else 60):
+        n = rng.randint(3, 12)
+        pads = [rng.choice(SIZES) if rng.random() < 0.5 else rng.randint(0, 40) for _ in range(n)]
+        if rep == 0:
+            pads = [0, 70000, 0, 0, 5]
+            n = len(pads)
+        if not quick and rep % 10 == 0:
+            pads[rng.randrange(n)] = 3 << 20
+        raw = rng.random() < 0.4
+        if raw:
+            lines = [('L%d-' % i + 'B' * pd).encode() for i, pd in enumerate(pads)]
+            q = '*'
+            want = lines
+        else:
+            lines = [('{"id": %d, "pad": "%s"}' % (i, 'x' * pd)).encode() for i, pd in enumerate(pads)]
+            q = '* | json | fields id'
+            want = [b'{"id":%d}' % i for i in range(n)]
+        data = b'\n'.join(lines) + (b'\n' if rng.random() < 0.7 else b'')
+        o = aglib.run_impl_one(q, data, 'json' if not raw else None)
+        evaluations += 1
+        got = [l for l in o['out'].split(b'\n') if l]
+        if o['rc'] != 0 or got != want:
+            bad = next((i for i, (g, w) in enumerate(zip(got, want)) if g != w), min(len(got), len(want)))
+            failures.append({'kind': 'spec', 'what': 'a line was lost, duplicated or altered around an over-long line (rc=%s): %d lines out, %d expected, first difference at line %d' % (o['rc'], len(got), len(want), bad),
+                             'payload': {'query': q, 'line_lengths': [len(l) for l in lines], 'generator': 'line i = "L<i>-" + "B"*pad (raw) or {"id": i, "pad": "x"*pad}', 'pads': pads, 'raw': raw,
+                                         'final_newline': data.endswith(b'\n')}})
+        if max(pads) >= 65536:
+            nontrivial += 1
     # 2. latency: a steady trickle (gaps below the poll timeout) and slow producers: each row within LAT of its newline
     for gap, n in ((0.01, 120), (0.03, 40), (0.2, 6)) if quick else ((0.01, 400), (0.005, 400), (0.03, 100), (0.2, 15), (0.6, 4)):
         q = '* | json | fields id'
@@ -158,6 +189,7 @@ def explore(ctx):
     cov = {
         'evaluations': evaluations + len(cases), 'distinct_nontrivial': nontrivial,
         'rule': 'the real binary behind pipes: random chunkings (cuts anywhere, also inside multi-byte characters; pauses of 0/5/70/120 ms; final line with and without newline), '
+                'inputs with lines of 1 KiB .. 200 KB (thorough: 3 MiB) at random positions among ordinary lines, raw and through json, against an independently computed expected output, '
                 'paced producers (one line every 5..600 ms) with per-row latency measured against %.1f s, a burst of 5000 (thorough: 200000) rows into a stalled consumer; '
                 'plus record pipelines against the model; non-trivial = a schedule with a mid-line split and a pause, a paced run, or a stalled-consumer run' % LAT,
         'samples': samples,
